@@ -406,7 +406,12 @@ func (x *Exec) binop(fr *Frame, st *State, op token.Token, a, b string, ta, tb, 
 	if isStringT(ta) {
 		switch op {
 		case token.ADD:
-			vc.uf("strcat", []string{"Int", "Int"}, "Int")
+			if !vc.ufDeclared("strcat") {
+				vc.uf("strcat", []string{"Int", "Int"}, "Int")
+				// the empty string (0) is the identity of concatenation
+				vc.emit("(assert (forall ((x Int)) (! (= (strcat 0 x) x) :pattern ((strcat 0 x)))))")
+				vc.emit("(assert (forall ((x Int)) (! (= (strcat x 0) x) :pattern ((strcat x 0)))))")
+			}
 			t := fmt.Sprintf("(strcat %s %s)", a, b)
 			if st != nil {
 				vc.assume(st.pc, fmt.Sprintf("(= (strlen %s) (+ (strlen %s) (strlen %s)))", t, a, b))
